@@ -288,6 +288,7 @@ def _idft2(fn, dft2_fn, dft2_info):
     dparams = [a.arg for a in dft2_fn.args.args]
     env = {'F': _Arr('in')}
     ints = {}
+    flags = {'passes_out': False, 'div_inplace': None}      # the out= plumbing of idft2 (wave 12): emitted as Gen constants
     def bexpr(e):
         if isinstance(e, ast.Name) and e.id == 'unitary': return 'unitary'
         if isinstance(e, ast.Constant) and isinstance(e.value, bool): return 'true' if e.value else 'false'
@@ -312,7 +313,11 @@ def _idft2(fn, dft2_fn, dft2_info):
             kws = {k.arg: k.value for k in e.keywords}
             if fn_ == 'np.asarray' and len(e.args) == 1 and not kws: return aexpr(e.args[0])
             if fn_ == 'np.conj' and len(e.args) == 1 and set(kws) <= {'out'}: return _Arr('conj', aexpr(e.args[0]))
-            if fn_ == 'np.divide' and len(e.args) == 2 and set(kws) <= {'out'}: return _Arr('div', aexpr(e.args[0]), iexpr(e.args[1]))
+            if fn_ == 'np.divide' and len(e.args) == 2 and set(kws) <= {'out'}:
+                if 'out' in kws and _u(kws['out']) != _u(e.args[0]): raise Refuse(f'idft2: np.divide writes into another array: {_u(e)[:60]}')
+                if flags['div_inplace'] is not None: raise Refuse('idft2: more than one np.divide')
+                flags['div_inplace'] = 'out' in kws
+                return _Arr('div', aexpr(e.args[0]), iexpr(e.args[1]))
             if fn_ == 'dft2':
                 if len(e.args) > len(dparams): raise Refuse('idft2: too many arguments to dft2')
                 passed = dict(zip(dparams, e.args)); 
@@ -327,9 +332,13 @@ def _idft2(fn, dft2_fn, dft2_info):
                     args[k] = passed[k].id
                 if 'offset' in passed: raise Refuse('idft2: dft2 is called with an explicit offset')
                 if 'out' in passed and _u(passed['out']) != 'out': raise Refuse('idft2: out= of the dft2 call changed')
+                flags['passes_out'] = 'out' in passed
                 un = bexpr(passed['unitary']) if 'unitary' in passed else ('true' if dft2_info['unitary_default'] == 'True' else 'false')
                 return _Arr('dft2', aexpr(passed['f']), args, un)
-        if isinstance(e, ast.BinOp) and isinstance(e.op, ast.Div): return _Arr('div', aexpr(e.left), iexpr(e.right))
+        if isinstance(e, ast.BinOp) and isinstance(e.op, ast.Div):
+            if flags['div_inplace'] is not None: raise Refuse('idft2: more than one division')
+            flags['div_inplace'] = False
+            return _Arr('div', aexpr(e.left), iexpr(e.right))
         raise Refuse(f'idft2: unsupported array expression {_u(e)[:60]}')
     branches = []      # (condition or None, array value)
     for st in _body(fn):
@@ -361,7 +370,7 @@ def _idft2(fn, dft2_fn, dft2_info):
         o = ast.literal_eval(off); o0, o1 = int(o[0]), int(o[1])
     except Exception:
         raise Refuse(f'dft2: offset default is not a pair of integers: {off}')
-    return body, (o0, o1)
+    return body, (o0, o1), flags
 
 
 def generate(repo):
@@ -373,7 +382,7 @@ def generate(repo):
     cparams, cvecs = _coords(fns['_dft2_coords'])
     mparams, mats = _matrices(fns['_dft2_matrices'], cparams, cvecs)
     d = _dft2(fns['dft2'], mparams, mats)
-    idft2_body, idft2_off = _idft2(fns['idft2'], fns['dft2'], d)
+    idft2_body, idft2_off, idft2_flags = _idft2(fns['idft2'], fns['dft2'], d)
     L = []
     for k, v in enumerate(cvecs):
         L.append(f'/-- `_dft2_coords` (line {fns["_dft2_coords"].lineno}): coordinate of index `i` of the {k + 1}-th returned vector, '
@@ -417,6 +426,14 @@ def generate(repo):
              f'    (F : Int → Int → K) (s0 s1 : Int) (alpha : A) (shape : S) (shift : H) (unitary : Bool) (i j : Int) : K :=\n'
              f'  {idft2_body}\n'
              f'def fwIdft2Offset : Int × Int := ({idft2_off[0]}, {idft2_off[1]})\n')
+    b = lambda x: 'true' if x else 'false'
+    L.append(f'/-- `idft2`, the `out=` path: whether `out` is handed to the `dft2` call (`dft2(…, out=out)`); the conjugation after it is '
+             f'`np.conj(X, out=X)` (in place on the array `dft2` returned — anything else is refused by the translator); whether the division '
+             f'of the non-unitary branch is `np.divide(X, n, out=X)` (in place, so the returned object is still the array `dft2` returned) '
+             f'rather than a fresh `X / n` -/\n'
+             f'def fwIdft2PassesOut : Bool := {b(idft2_flags["passes_out"])}\n'
+             f'def fwIdft2ConjInPlace : Bool := true\n'
+             f'def fwIdft2DivideInPlace : Bool := {b(bool(idft2_flags["div_inplace"]))}\n')
     notes = ['fourier.py: np.floor(b/2.0) translated as Int floor division b / 2 (exact for array sizes); np.broadcast_to(x, (2,)) as the '
              'pair (x0, x1) (a scalar x is x0 = x1, exercised by the harness); out=/lru_cache/asarray are not modelled']
     return '\n'.join(L), notes
